@@ -17,14 +17,14 @@ import numpy
 from ..common import Ctx, pmap, jhash
 from ..tlc import MachineryError, read_emitted, run_tlc, workdir
 
-ROWS = [dict(x=2, y=3, z=-1, w=5, v=7), dict(x=0, y=-2, z=4, w=1, v=1), dict(x=3, y=3, z=2, w=-3, v=0)]
+ROWS = [dict(x1=2, yy=3, z=-1, w=5, v0=7), dict(x1=0, yy=-2, z=4, w=1, v0=1), dict(x1=3, yy=3, z=2, w=-3, v0=0)]
 MATERIALISE_MOD = 1
 
 
 def _frame(shift=None):
     import pandas
 
-    d = {k: [float(r[k]) for r in ROWS] for k in "xyzwv"}
+    d = {k: [float(r[k]) for r in ROWS] for k in ROWS[0]}
     if shift:
         d[shift[0]] = [a + shift[1] for a in d[shift[0]]]
     return pandas.DataFrame(d)
@@ -83,8 +83,8 @@ def replay_case(case):
 
 def run(ctx: Ctx) -> None:
     global MATERIALISE_MOD
-    ctx.rule = ("every formula of <= MaxTerms distinct terms over {x,y,z,w} (each optionally scaled by the literal 2, with or without intercept) x "
-                "every tuple of <= 2 differentiation variables from {x,y,z,w,v}; non-trivial = some derivative term is neither 0 nor 1")
+    ctx.rule = ("every formula of <= MaxTerms distinct terms over {x1,yy,z,w} (each optionally scaled by the literal 2, with or without intercept) x "
+                "every tuple of <= 2 differentiation variables from {x1,yy,z,w,v0}; non-trivial = some derivative term is neither 0 nor 1")
     ctx.trusted = ["materialisation of a single numeric term (C02 decides that separately)", "TLC"]
     maxterms = 2 if ctx.quick else 3
     MATERIALISE_MOD = 4 if ctx.quick else 16
